@@ -6,6 +6,7 @@ files, sys.exit, re) are modelled by the table INTRINSICS or refused (AnalysisEr
 call it could not follow instead of guessing.  The evaluator is deliberately a subset: what the TZ compiler's
 transformer / generators use."""
 import ast
+import datetime as _datetime
 import os
 import re as _re
 
@@ -95,10 +96,12 @@ INTRINSICS = {
     're.sub': _re.sub, 're.match': _re.match, 're.search': _re.search, 're.split': _re.split, 're.fullmatch': _re.fullmatch,
     'os.path.join': os.path.join, 'os.path.basename': os.path.basename,
     'collections.OrderedDict': dict, 'OrderedDict': dict,
+    'datetime.datetime': _datetime.datetime, 'datetime.timedelta': _datetime.timedelta, 'datetime.date': _datetime.date,
+    'datetime.timezone': _datetime.timezone, 'logging.exception': _quiet,
     'typing.cast': lambda t, v: v,
 }
 
-_SAFE_TYPES = (str, list, dict, set, tuple, int, bool, frozenset, bytes)
+_SAFE_TYPES = (str, list, dict, set, tuple, int, bool, frozenset, bytes, float, _datetime.datetime, _datetime.date, _datetime.timedelta, _datetime.timezone)
 _BUILTINS = {'len': len, 'range': range, 'min': min, 'max': max, 'sum': sum, 'any': any, 'all': all, 'enumerate': enumerate, 'zip': zip,
              'reversed': reversed, 'list': list, 'tuple': tuple, 'set': set, 'dict': dict, 'str': str, 'int': int, 'bool': bool, 'abs': abs,
              'ord': ord, 'chr': chr, 'divmod': divmod, 'round': round, 'repr': repr, 'sorted': sorted, 'map': map, 'filter': filter,
